@@ -76,7 +76,9 @@ def gen_preambles():
     """(preamble lines) over a small alphabet of definitions; every one defines @{exec_path}"""
     defs = ['@{a} = /usr/bin/x /opt/y', '@{b} = @{a}/1 @{a}/{2,3}', '@{a} += /srv/z', '@{exec_path} = @{b}',
             '@{exec_path} = @{a}/bin/t', '@{exec_path} += /opt/q', '@{exec_path} = @{bin}/t @{lib}/{,t/}t', '@{exec_path} += @{a}/t2',
-            '@{exec_path} = /{usr/,}bin/t{,-[0-9]*}', '# note']
+            '@{exec_path} = /{usr/,}bin/t{,-[0-9]*}', '# note',
+            # (third hunt) a comment that reads like a header, quoted values, a value that starts with an alternation
+            '# keep the profile name in sync with @{exec_path}', '@{n} = "Foo Bar" foo', '@{exec_path} = /opt/@{n}/t', '@{exec_path} += {@{bin},/opt/u}/t3']
     out = []
     for L in (1, 2, 3, 4):
         for seq in itertools.permutations(range(len(defs)), L):
@@ -96,6 +98,8 @@ def gen_preambles():
             used = set(re.findall(r'@\{(\w+)\}', ' '.join(' '.join(l.split()[2:]) for l in lines if l.startswith('@'))))
             if not ok or '@{exec_path}' not in defined or not (used - {'bin', 'lib'}) <= {d[2:-1] for d in defined}:
                 continue
+            if L == 4 and any(i >= 10 for i in seq):
+                continue                      # the additions of the third hunt: up to three lines
             out.append(lines)
     return out
 
@@ -246,21 +250,43 @@ def run(tier):
     if tier != 'thorough':
         gens = [g for g in gens if len(g) <= 3]
     base0 = os.path.join(root, cfgx.tag(cfgs[0]))
-    reqs = []
+    # the file around the preamble: the plain one, text after the opening brace, a child attached to @{exec_path} too
+    FRAMES = [('plain', 'profile gen @{exec_path} {\n  include <abstractions/base>\n}\n'),
+              ('comment-after-brace', 'profile gen @{exec_path} { # the main binary\n  include <abstractions/base>\n}\n'),
+              ('blank-after-brace', 'profile gen @{exec_path} { \n  include <abstractions/base>\n}\n'),
+              ('flags-and-comment', 'profile gen @{exec_path} flags=(complain) { # c\n  include <abstractions/base>\n}\n'),
+              ('child-on-exec-path', 'profile gen @{exec_path} {\n  include <abstractions/base>\n  @{bin}/w rCx -> worker,\n\n  profile worker @{exec_path} {\n    include <abstractions/base>\n  }\n}\n')]
+    reqs = []; meta = []
     for lines in gens:
         pre = 'abi <abi/4.0>,\n\ninclude <tunables/global>\n\n' + '\n'.join(lines) + '\n'
-        reqs.append({'op': 'builder:userspace', 'text': pre + 'profile gen @{exec_path} {\n  include <abstractions/base>\n}\n', 'file': 'gen'})
+        for fname, frame in FRAMES:
+            if fname != 'plain' and len(lines) > 2:
+                continue
+            reqs.append({'op': 'builder:userspace', 'text': pre + frame, 'file': 'gen'}); meta.append((lines, fname, pre))
     res = gox.jsonl(bins['applyx'], reqs, env={'DISTRIBUTION': 'arch'})
     ngen = 0
-    for lines, rq, r in zip(gens, reqs, res):
-        pre = rq['text'][:rq['text'].index('profile gen')]
+    for (lines, fname, pre), rq, r in zip(meta, reqs, res):
+        tagf = '' if fname == 'plain' else ' [%s]' % fname
         if r.get('panic') or r.get('err'):
-            fnd.report('generated-preamble-rejected', 'the userspace builder fails on a preamble the reference parser accepts: %s: %s' % (lines, r.get('panic') or r.get('err')), {'preamble': lines})
+            fnd.report('generated-preamble-rejected' + (' frame=' + fname if tagf else ''), 'the userspace builder fails on a preamble the reference parser accepts: %s%s: %s' % (lines, tagf, r.get('panic') or r.get('err')), {'preamble': lines, 'frame': fname})
             continue
         bl = scan.blocks(r['out'])
         lit = literal_of(bl[0].rest) if bl else ''
+        if not bl or bl[0].name != 'gen':
+            fnd.report('generated-header-renamed', 'the userspace builder turns the header `profile gen @{exec_path} {` into `%s`: %s%s' % (bl[0].header.strip() if bl else r['out'][:200], lines, tagf), {'preamble': lines, 'frame': fname})
+            continue
+        if fname == 'child-on-exec-path' and [b.path for b in bl] != ['gen', 'gen//worker']:
+            fnd.report('generated-child-renamed', 'a child profile that is also attached to @{exec_path} is given the header of its parent: blocks %s after the userspace builder' % [b.path for b in bl], {'preamble': lines, 'frame': fname})
+            continue
+        # every other line of the file is carried through
+        want_rest = [l for l in rq['text'].split('\n') if not l.startswith('profile gen ')]
+        got_rest = [l for l in r['out'].split('\n') if not l.startswith('profile gen ')]
+        if want_rest != got_rest:
+            d = [(a, b) for a, b in zip(want_rest, got_rest) if a != b][:2]
+            fnd.report('generated-other-line-rewritten', 'the userspace builder rewrites a line that is not the header: %s%s: %s' % (lines, tagf, d), {'preamble': lines, 'frame': fname})
+            continue
         ngen += 1
-        jobs.append(('att', 'generated ' + ' ; '.join(lines), pre + 'profile p @{exec_path} {\n}\n', pre + 'profile p ' + lit + ' {\n}\n', base0))
+        jobs.append(('att', 'generated ' + ' ; '.join(lines) + tagf, pre + 'profile p @{exec_path} {\n}\n', pre + 'profile p ' + lit + ' {\n}\n', base0))
     with ProcessPoolExecutor(C.NPROC) as pool:
         results = list(pool.map(_one, jobs, chunksize=4))
     drift = drifting_variables(builtin, sorted({j[4] for j in jobs}))
@@ -269,7 +295,16 @@ def run(tier):
     for job, (kind, key, verdict, detail, s, t) in zip(jobs, results):
         st += s; tr += t
         who = key.split(' ', 1)[1] if not key.startswith('generated') else key
-        if verdict == 'COMPILE':
+        gen_cause = None
+        if key.startswith('generated'):
+            fr = re.search(r' \[([\w-]+)\]$', key)
+            if '{@{bin},/opt/u}/t3' in key:
+                gen_cause = 'cause=a-value-of-exec_path-starts-with-an-alternation'
+            elif fr:
+                gen_cause = 'frame=' + fr.group(1)
+        if gen_cause and verdict in ('COMPILE', 'DIFF'):
+            fnd.report('generated-attachment-wrong %s' % gen_cause, '%s: %s' % (key, ('the reference parser rejects the built header: ' + str(detail)[-160:]) if verdict == 'COMPILE' else '%s is matched by the %s' % detail), {'case': key})
+        elif verdict == 'COMPILE':
             fnd.report('reference-parser-rejects %s' % who, '%s: the reference parser cannot compile one side: %s' % (key, detail), {'case': key})
         elif verdict == 'DRIFT':
             cex, side = detail
